@@ -27,6 +27,8 @@ import (
 	"testing/synctest"
 	"time"
 
+	"github.com/cenkalti/backoff/v5"
+
 	"go.opentelemetry.io/collector/component"
 	"go.opentelemetry.io/collector/config/configretry"
 	"go.opentelemetry.io/collector/consumer/consumererror"
@@ -50,6 +52,8 @@ type c03Storage struct {
 	st     map[string][]byte
 	onUAC  func(op string)
 	closed int
+	// failSets: fault injection — plain Set writes (the queue-size snapshot of an items/bytes-sized persistent queue) fail
+	failSets bool
 }
 
 type c03Client struct {
@@ -67,6 +71,12 @@ func (c *c03Client) Get(ctx context.Context, k string) ([]byte, error) {
 	return op.Value, err
 }
 func (c *c03Client) Set(ctx context.Context, k string, v []byte) error {
+	c.ext.mu.Lock()
+	fail := c.ext.failSets
+	c.ext.mu.Unlock()
+	if fail {
+		return errors.New("injected: storage write failed")
+	}
 	return c.Batch(ctx, storage.SetOperation(k, v))
 }
 func (c *c03Client) Delete(ctx context.Context, k string) error {
@@ -402,6 +412,7 @@ type c03Case struct {
 	cfg     c03Cfg
 	acts    []c03Act
 	backend []c03Call
+	failSet bool // storage starts failing plain Set writes just before Shutdown is called
 }
 
 func (c *c03Cfg) options(host *component.Host, st *c03Storage) ([]Option, error) {
@@ -431,7 +442,13 @@ func (c *c03Cfg) options(host *component.Host, st *c03Storage) ([]Option, error)
 		if c.batch == 1 {
 			q.Batch = &BatchConfig{FlushTimeout: c.flushTO, MinSize: c.minSize, MaxSize: c.maxSize}
 		}
-		if err := q.Validate(); err != nil {
+		vq := q
+		if c.persistent {
+			// persistent queues sized by items exist in the code (queue-size snapshots in storage) although Validate
+			// restricts configuration files to the requests sizer: validate everything else
+			vq.Sizer = request.SizerTypeRequests
+		}
+		if err := vq.Validate(); err != nil {
 			return nil, err
 		}
 		if q.Batch != nil {
@@ -461,6 +478,7 @@ func c03Gen(c int) *c03Case {
 	rnd := vRand(c)
 	cs := &c03Case{}
 	cfg := &cs.cfg
+	splitty := false // requests larger than max_size: split over several flushes, remainder in the partial batch
 	cfg.queue = true
 	cfg.sizer = "requests"
 	cfg.consumers = 1 + rnd.IntN(3)
@@ -485,9 +503,15 @@ func c03Gen(c int) *c03Case {
 		cfg.batch = 2
 	case 5: // persistent queue
 		cfg.persistent = true
+		if rnd.IntN(3) == 0 { // sized by items: writes a size snapshot at shutdown
+			cfg.sizer = "items"
+			cfg.capacity = int64(8 + rnd.IntN(60))
+			cs.failSet = rnd.IntN(2) == 0
+		}
 	case 6: // persistent queue + legacy batcher
 		cfg.persistent = true
 		cfg.batch = 2
+		splitty = rnd.IntN(3) != 0
 	case 7: // wait_for_result, or the legacy batcher without a queue (also waits for the result)
 		if rnd.IntN(2) == 0 {
 			cfg.wfr = true
@@ -509,10 +533,15 @@ func c03Gen(c int) *c03Case {
 			cfg.maxSize = cfg.minSize + int64(3+rnd.IntN(10))
 		}
 	}
+	if splitty {
+		cfg.minSize = int64(2 + rnd.IntN(3))
+		cfg.maxSize = cfg.minSize + int64(rnd.IntN(2))
+		cfg.flushTO = []time.Duration{time.Second, time.Hour}[rnd.IntN(2)]
+	}
 	if cfg.queue && !cfg.wfr && rnd.IntN(6) == 0 {
 		cfg.block = true
 	}
-	if rnd.IntN(2) == 0 {
+	if rnd.IntN(2) == 0 || (splitty && rnd.IntN(2) == 0) {
 		cfg.retry = true
 		cfg.initial = []time.Duration{10 * time.Millisecond, 100 * time.Millisecond, time.Second}[rnd.IntN(3)]
 		cfg.maxElapsed = []time.Duration{0, 300 * time.Millisecond, 10 * time.Second}[rnd.IntN(3)]
@@ -527,7 +556,11 @@ func c03Gen(c int) *c03Case {
 	t := time.Duration(0)
 	for i := 0; i < nSend; i++ {
 		t += c03Gaps[rnd.IntN(len(c03Gaps))]
-		cs.acts = append(cs.acts, c03Act{at: t, rid: i + 1, n: 1 + rnd.IntN(8)})
+		nItems := 1 + rnd.IntN(8)
+		if splitty {
+			nItems = 1 + rnd.IntN(11)
+		}
+		cs.acts = append(cs.acts, c03Act{at: t, rid: i + 1, n: nItems})
 	}
 	// shutdown instant: at/near an action, near a timer, or after everything
 	var sd time.Duration
@@ -556,10 +589,16 @@ func c03Gen(c int) *c03Case {
 	// backend script
 	nb := rnd.IntN(30)
 	failPct := []int{0, 0, 10, 30, 60}[rnd.IntN(5)]
+	if splitty || cs.failSet {
+		failPct = []int{30, 60}[rnd.IntN(2)]
+	}
 	for i := 0; i < nb; i++ {
 		call := c03Call{dur: c03Durs[rnd.IntN(len(c03Durs))]}
 		if rnd.IntN(100) < failPct {
 			call.outcome = 1 + rnd.IntN(3)/2 // transient twice as likely as permanent
+			if splitty {
+				call.outcome = 1 + rnd.IntN(2)
+			}
 		}
 		cs.backend = append(cs.backend, call)
 	}
@@ -591,6 +630,20 @@ func c03Corpus() []*c03Case {
 		// request larger than max size: several flushes through one worker while shutdown is requested
 		{cfg: c03Cfg{queue: true, sizer: "items", capacity: 10000, consumers: 1, batch: 1, flushTO: time.Second, minSize: 3, maxSize: 3},
 			acts: []c03Act{send(0, 1, 8), send(0, 2, 8), sd(ms)}, backend: []c03Call{{100 * ms, 0}, {100 * ms, 1}, {100 * ms, 0}}},
+		// persistent queue sized by items whose size snapshot (client.Set) fails at shutdown while a slow export is in flight:
+		// Shutdown must still join the consumers before it returns
+		{cfg: c03Cfg{queue: true, persistent: true, sizer: "items", capacity: 100, consumers: 2}, failSet: true,
+			acts: []c03Act{send(0, 1, 2), send(0, 2, 2), send(0, 3, 2), sd(time.Second)}, backend: []c03Call{{3 * time.Second, 0}, {3 * time.Second, 1}, {0, 0}}},
+		// persistent queue + legacy batcher, a request of 8 split by max_size 3: [3] fails permanently, [3] is sent, the remainder [2]
+		// sits in the partial batch, is flushed by Shutdown and fails with the retry sender stopped (shutdown error): the request
+		// must stay stored whatever the other parts did
+		{cfg: c03Cfg{queue: true, persistent: true, sizer: "requests", capacity: 100, consumers: 1, batch: 2, flushTO: time.Hour, minSize: 3, maxSize: 3,
+			retry: true, initial: time.Second},
+			acts: []c03Act{send(0, 1, 8), sd(10 * ms)}, backend: []c03Call{{0, 2}, {0, 0}, {0, 1}, {0, 1}}},
+		// same, the earlier part exhausts its retries (final failure) before the shutdown
+		{cfg: c03Cfg{queue: true, persistent: true, sizer: "requests", capacity: 100, consumers: 1, batch: 2, flushTO: time.Hour, minSize: 3, maxSize: 3,
+			retry: true, initial: 10 * ms, maxElapsed: 300 * ms, wrap: true},
+			acts: []c03Act{send(0, 1, 5), sd(2 * time.Second)}, backend: []c03Call{{0, 1}, {0, 1}, {0, 1}, {0, 1}, {0, 1}, {0, 1}, {0, 1}, {0, 1}, {0, 1}, {0, 1}, {0, 1}, {0, 1}, {0, 1}, {0, 1}}},
 		// shutdown exactly when the flush timer fires
 		{cfg: c03Cfg{queue: true, sizer: "items", capacity: 10000, consumers: 1, batch: 1, flushTO: 30 * ms, minSize: 40},
 			acts: []c03Act{send(0, 1, 3), sd(30 * ms), send(30*ms, 2, 2)}, backend: []c03Call{{5 * ms, 0}}},
@@ -600,7 +653,8 @@ func c03Corpus() []*c03Case {
 // ---- running one case -----------------------------------------------------------------------------------------
 
 type c03Ev struct {
-	kind   string // ss acc rej shutreq shutret es ee wshut uac ms
+	t      time.Duration // virtual time since the case started
+	kind   string        // ss acc rej shutreq shutret es ee wshut uac ms
 	id     int
 	ids    []int
 	failed bool
@@ -614,6 +668,7 @@ type c03Ev struct {
 }
 
 type c03Run struct {
+	start     time.Time
 	mu        sync.Mutex
 	evs       []c03Ev
 	recovered []int
@@ -627,13 +682,14 @@ type c03Run struct {
 }
 
 func (r *c03Run) log(e c03Ev) {
+	e.t = time.Since(r.start)
 	r.mu.Lock()
 	r.evs = append(r.evs, e)
 	r.mu.Unlock()
 }
 
 func c03Exec(cs *c03Case, set exporter.Settings, beforeShutdown func(run *c03Run)) *c03Run {
-	run := &c03Run{}
+	run := &c03Run{start: time.Now()}
 	bg := context.Background()
 	synctest.Wait()
 	base := runtime.NumGoroutine()
@@ -716,6 +772,11 @@ func c03Exec(cs *c03Case, set exporter.Settings, beforeShutdown func(run *c03Run
 				if beforeShutdown != nil {
 					beforeShutdown(run)
 				}
+				if cs.failSet {
+					st.mu.Lock()
+					st.failSets = true
+					st.mu.Unlock()
+				}
 				run.log(c03Ev{kind: "shutreq"})
 				e := exp.Shutdown(bg)
 				run.log(c03Ev{kind: "shutret", failed: e != nil})
@@ -774,6 +835,9 @@ func c03Exec(cs *c03Case, set exporter.Settings, beforeShutdown func(run *c03Run
 		}
 		st.mu.Unlock()
 		sort.Ints(run.stored)
+		st.mu.Lock()
+		st.failSets = false
+		st.mu.Unlock()
 		// the next start: a new exporter on the same storage, always-succeeding backend
 		var rmu sync.Mutex
 		rcfg := cs.cfg
@@ -807,6 +871,42 @@ func c03Exec(cs *c03Case, set exporter.Settings, beforeShutdown func(run *c03Run
 	return run
 }
 
+// c03RetriesLeft: for every failed call, whether the retry sender (had it not been stopped) would have scheduled another
+// attempt: the elapsed-time budget, counted from the flight's first call, was not exhausted by the next back-off delay.
+// The delay comes from the real back-off implementation with the case's parameters (randomization factor 0).
+func c03RetriesLeft(cs *c03Case, evs []c03Ev) map[int]bool {
+	left := map[int]bool{}
+	if !cs.cfg.retry {
+		return left
+	}
+	type fl struct {
+		first time.Duration
+		bo    *backoff.ExponentialBackOff
+	}
+	flights := map[string]*fl{}
+	callKey := map[int]string{}
+	for _, e := range evs {
+		switch e.kind {
+		case "es":
+			k := c03Join(e.ids)
+			callKey[e.id] = k
+			if flights[k] == nil {
+				flights[k] = &fl{first: e.t, bo: &backoff.ExponentialBackOff{
+					InitialInterval: cs.cfg.initial, RandomizationFactor: 0, Multiplier: 1.5, MaxInterval: 5 * time.Second}}
+			}
+		case "ee":
+			f := flights[callKey[e.id]]
+			if f == nil || !e.failed || e.perm {
+				continue
+			}
+			delay := f.bo.NextBackOff()
+			exhausted := cs.cfg.maxElapsed > 0 && f.first+cs.cfg.maxElapsed < e.t+delay
+			left[e.id] = !exhausted
+		}
+	}
+	return left
+}
+
 // c03HelperGoroutines counts goroutines (other than the caller) that have a frame inside the exporter helper's internal
 // packages (queue consumers, flush goroutines, batcher timer, retry back-off, senders blocked in the queue).
 func c03HelperGoroutines() (int, string) {
@@ -836,6 +936,7 @@ func c03HelperGoroutines() (int, string) {
 type c03Verdict struct {
 	returned                                           bool
 	undrained, duplicated, lost, unrecovered           []int
+	interrupted                                        []int // persistent: items of a shutdown-interrupted flight that are not in storage
 	openCalls, lateCalls                               []int
 	nontrivial                                         bool
 	early                                              []int
@@ -940,6 +1041,33 @@ func c03Judge(cs *c03Case, run *c03Run) c03Verdict {
 			v.nontrivial = true
 		}
 	}
+	// persistent queue: a flight whose LAST call failed with a retryable error while retries were enabled and not exhausted can
+	// only have ended because the shutdown interrupted it: it has not finished export, so its items must still be stored
+	if cs.cfg.persistent && cs.cfg.retry && reqAt >= 0 {
+		left := c03RetriesLeft(cs, run.evs)
+		lastCall := map[string]int{}
+		callIDs := map[int][]int{}
+		for _, e := range run.evs[:end] {
+			if e.kind == "es" {
+				lastCall[c03Join(e.ids)] = e.id
+				callIDs[e.id] = e.ids
+			}
+		}
+		isLast := map[int]bool{}
+		for _, c := range lastCall {
+			isLast[c] = true
+		}
+		for _, e := range run.evs[:end] {
+			if e.kind == "ee" && isLast[e.id] && e.failed && !e.perm && left[e.id] {
+				for _, x := range callIDs[e.id] {
+					if count[x] > 0 && !sto[x] {
+						v.interrupted = append(v.interrupted, x)
+					}
+				}
+			}
+		}
+		sort.Ints(v.interrupted)
+	}
 	for _, e := range run.evs {
 		switch e.kind {
 		case "acc":
@@ -960,9 +1088,9 @@ func c03D(d time.Duration) string { return strconv.FormatInt(int64(d), 10) }
 func c03EmitOps(out *vOut, idx int, cs *c03Case) {
 	c := cs.cfg
 	out.Linef("case %d", idx)
-	out.Linef("op cfg signal=%s wrap=%d queue=%d persistent=%d sizer=%s cap=%d consumers=%d wfr=%d block=%d batch=%d flush=%s min=%d max=%d retry=%d initial=%s maxelapsed=%s timeout=%s",
+	out.Linef("op cfg signal=%s wrap=%d queue=%d persistent=%d sizer=%s cap=%d consumers=%d wfr=%d block=%d batch=%d flush=%s min=%d max=%d retry=%d initial=%s maxelapsed=%s timeout=%s failset=%d",
 		c03SigName[c.signal], vB(c.wrap), vB(c.queue), vB(c.persistent), c.sizer, c.capacity, c.consumers, vB(c.wfr), vB(c.block), c.batch, c03D(c.flushTO), c.minSize, c.maxSize,
-		vB(c.retry), c03D(c.initial), c03D(c.maxElapsed), c03D(c.timeout))
+		vB(c.retry), c03D(c.initial), c03D(c.maxElapsed), c03D(c.timeout), vB(cs.failSet))
 	for _, a := range cs.acts {
 		if a.shutdown {
 			out.Linef("op act %s shutdown", c03D(a.at))
@@ -976,6 +1104,7 @@ func c03EmitOps(out *vOut, idx int, cs *c03Case) {
 }
 
 func c03EmitTrace(out *vOut, cs *c03Case, run *c03Run) {
+	left := c03RetriesLeft(cs, run.evs)
 	for _, e := range run.evs {
 		switch e.kind {
 		case "ss":
@@ -995,7 +1124,8 @@ func c03EmitTrace(out *vOut, cs *c03Case, run *c03Run) {
 		case "es":
 			out.Linef("tr es %d %s", e.id, c03Join(e.ids))
 		case "ee":
-			out.Linef("tr ee %d %d %d", e.id, vB(e.failed), vB(e.perm))
+			// last field: retries were left after this failed call (elapsed-time budget not exhausted)
+			out.Linef("tr ee %d %d %d %d", e.id, vB(e.failed), vB(e.perm), vB(left[e.id]))
 		case "shutret":
 			out.Linef("tr shutret %d", vB(e.failed))
 		case "uac":
@@ -1028,7 +1158,7 @@ func c03Emit(out *vOut, idx int, cs *c03Case, run *c03Run) {
 	if c.persistent {
 		und = v.lost
 	}
-	out.Linef("obs verdict returned=%d undrained=%s unrecovered=%s dup=%s open=%s late=%s", vB(v.returned), c03Join(und), c03Join(v.unrecovered), c03Join(v.duplicated), c03Join(v.openCalls), c03Join(v.lateCalls))
+	out.Linef("obs verdict returned=%d undrained=%s unrecovered=%s interrupted=%s dup=%s open=%s late=%s", vB(v.returned), c03Join(und), c03Join(v.unrecovered), c03Join(v.interrupted), c03Join(v.duplicated), c03Join(v.openCalls), c03Join(v.lateCalls))
 	kind := "memory"
 	if c.persistent {
 		kind = "persistent"
@@ -1043,6 +1173,9 @@ func c03Emit(out *vOut, idx int, cs *c03Case, run *c03Run) {
 			} else {
 				out.Linef("viol sig=C03/memory/accepted-item-never-exported items=%s batch=%d", c03Join(und), c.batch)
 			}
+		}
+		if len(v.interrupted) > 0 {
+			out.Linef("viol sig=C03/persistent/shutdown-interrupted-item-not-stored items=%s batch=%d", c03Join(v.interrupted), c.batch)
 		}
 		if len(v.unrecovered) > 0 {
 			// in storage when Shutdown returned, but the next start does not deliver it: recovery defect (property C01's domain)
@@ -1082,6 +1215,9 @@ func c03Emit(out *vOut, idx int, cs *c03Case, run *c03Run) {
 	out.Linef("stat refused %d", v.nRej)
 	out.Linef("stat cfg_%s_batch%d %d", kind, c.batch, 1)
 	out.Linef("stat signal_%s 1", c03SigName[c.signal])
+	if cs.failSet {
+		out.Linef("stat storage_set_fails_at_shutdown 1")
+	}
 	if c.wrap {
 		out.Linef("stat request_wrapper 1")
 	}
